@@ -9,6 +9,8 @@ import AutomataVerif.Proofs.PyShape
 import AutomataVerif.Model.DFAOps
 
 namespace AV
+namespace C04
+open DFA
 
 set_option linter.unusedSectionVars false
 
@@ -109,10 +111,9 @@ theorem indexOf_inj {β : Type} [DecidableEq β] (l : List β) : InjOn (fun x =>
           · exact h
         exact ih x hx' y hy' (by simpa using e)
 
-namespace DFA
 
 /-- The DFA with every state name `q` replaced by `f q`. -/
-def rename (f : σ → τ) (d : DFA σ α) : DFA τ α :=
+def _root_.AV.DFA.rename (f : σ → τ) (d : DFA σ α) : DFA τ α :=
   { states := d.states.map f, syms := d.syms,
     trans := d.trans.map fun kv => (f kv.1, kv.2.map fun e => (e.1, f e.2)),
     init := f d.init, finals := d.finals.map f, allowPartial := d.allowPartial }
@@ -234,5 +235,5 @@ theorem renumber_injOn {S : Type} [DecidableEq S] (d : DFA S α) (hk : ∀ k ∈
     · exact h
     · exact hk x h
 
-end DFA
+end C04
 end AV
